@@ -53,12 +53,12 @@ Section Alloc.
 
   (** "_alloc FHp b": block b leaves the allocator and becomes private to t *)
   Lemma JA_alloc g a h t b l :
-    JA c g a h -> views a t = l -> va_blk l = None -> In b (freeh h FHp) ->
+    JA c g a h -> views a t = l -> va_blk l = None -> va_e l = None -> In b (freeh h FHp) ->
     JA c g (upd_aux a t (with_blk l (Some b)) (fun x => if Nat.eqb x b then BPriv t else bown a x))
          (mkH (S (hlen h)) (slotv h) (lastw h) (att h) (linked h) (scan h)
               (fupd fl_eqb (freeh h) FHp (remove1 b (freeh h FHp))) (flbad h)).
   Proof.
-    intros J Hv Hb Hin. destruct J as [J1 J2 J3 J4 J5 J6 J7 J8 J9 J10 J11 J12 J15 J16 J17 J18 J13 J14].
+    intros J Hv Hb He Hin. destruct J as [J1 J2 J3 J4 J5 J6 J7 J8 J9 J10 J11 J12 J15 J16 J17 J18 J13 J14].
     assert (Hfree : bown a b = BFree) by (apply J11; exact Hin).
     assert (Hblt : b < List.length (gbs g)).
     { destruct (Nat.lt_ge_cases b (List.length (gbs g))); auto. rewrite (J12 b) in Hfree by assumption. discriminate. }
@@ -96,7 +96,9 @@ Section Alloc.
       + rewrite Bs. split; [intros K; exfalso; eapply remove1_notin; eauto|discriminate].
       + rewrite remove1_in by exact N. rewrite Bo by exact N. apply F1.
     - intros b' Hb'. rewrite Bo; [auto|lia].
-    - intros t' e Ht. destruct (V t') as (E1&_&_&_&_&E6&_). rewrite E6 in Ht. rewrite E1. auto.
+    - intros t' e f Ht. destruct (Nat.eq_dec t' t) as [->|N].
+      + unfold a' in Ht. rewrite upd_aux_same in Ht. cbn in Ht. congruence.
+      + unfold a' in *. rewrite upd_aux_other in * by exact N. eauto.
     - intros t' n Ht. destruct (V t') as (_&_&_&_&E5&_). rewrite E5 in Ht. eauto.
     - intros t'. destruct (V t') as (_&_&_&_&_&_&_&E8). rewrite E8. specialize (J14 t').
       destruct (va_scan (views a t')) as [ss|]; auto. destruct J14 as (X1 & X2). split; auto.
